@@ -45,7 +45,15 @@ def _setup(real):
     pp.create_load(net, b[3], 0.1, 0.02); pp.create_load(net, b[1], 0.5, 0.1)
     pp.create_sgen(net, b[1], 0.1)
     pp.create_switch(net, b[1], 1, et="l")
-    _ST.update(dfn=dfn, Probe=Probe, log=log, net=net,
+    # a network the default functions have something to repair in: implausible impedances (xward with x = 0, a line with
+    # zero impedance), a heavily overloaded feeder (the plain power flow does not converge), a wrongly rated bus
+    import copy as _copy
+    bad = _copy.deepcopy(net)
+    pp.create_xward(bad, b[1], ps_mw=0.1, qs_mvar=0.0, pz_mw=0.0, qz_mvar=0.0, r_ohm=0.0, x_ohm=0.0, vm_pu=1.0)
+    pp.create_line_from_parameters(bad, b[1], b[2], 1.0, 0.0, 0.0, 0.0, 0.5)
+    pp.create_ward(bad, b[2], 0.05, 0.0, 0.0, 0.0)
+    bad.load.loc[1, "p_mw"] = 400.0
+    _ST.update(dfn=dfn, Probe=Probe, log=log, net=net, bad=bad,
                args0=dict(dfn.default_argument_values), fns0=list(dfn.default_diagnostic_functions))
     return _ST
 
@@ -55,7 +63,8 @@ def observe(job):
     st = _setup(real)
     from pandapower.diagnostic import Diagnostic
     from ..netstate import snapshot, snap_diff
-    dfn, Probe, log, net = st["dfn"], st["Probe"], st["log"], st["net"]
+    dfn, Probe, log = st["dfn"], st["Probe"], st["log"]
+    net = st["bad"] if job.get("netkind") == "troubled" else st["net"]
     # every history starts from pristine module state (a fresh interpreter, conceptually)
     dfn.default_argument_values.clear(); dfn.default_argument_values.update(st["args0"])
     dfn.default_diagnostic_functions[:] = (st["fns0"] if real else []) + [("d", Probe("d"), None)]
@@ -117,14 +126,24 @@ def run(tier, seed, replay=None):
         hists = [jsonable(s["hist"]) for s in r.dump if s["hist"] and s["hist"][-1]["op"] == "diag"]
         states, trans = r.distinct, r.transitions
     jobs = [{"hist": h, "real": False} for h in hists]
+    if replay and replay["case"].get("job"):
+        jobs = [replay["case"]["job"]]
+    if not replay:
+        # the REAL default function set (it runs and repairs power flows on copies/backups of the tables): every two-step
+        # history "new with defaults; diagnose" on the plain and on a troubled network - quick and thorough
+        short = [h for h in hists if len(h) == 2 and h[0]["op"] == "new" and h[0]["dflt"]]
+        jobs += [{"hist": h, "real": True, "netkind": k} for h in short for k in ("plain", "troubled")]
     if real and not replay:
         rnd = random.Random(seed)
-        jobs += [{"hist": h, "real": True} for h in rnd.sample(hists, min(160, len(hists)))]
+        jobs += [{"hist": h, "real": True, "netkind": rnd.choice(["plain", "troubled"])} for h in rnd.sample(hists, min(160, len(hists)))]
     cases = pool_map(observe, jobs)
+    for c, j in zip(cases, jobs):
+        c["job"] = j
     fails, st = tlc_obs("DiagnosticObs", "DiagnosticObs.cfg", cases)
     for name, i in fails:
         c = cases[i]
-        v.violation("C30|%s" % name, "%s fails after history %s: probes saw %s%s" % (
+        v.violation("C30|%s%s" % (name, "|real_defaults:" + c["job"].get("netkind", "plain") if c["job"].get("real") else ""),
+                    "%s fails after history %s: probes saw %s%s" % (
             name, [tuple(a.values()) for a in c["hist"]], c["calls"][-1], " err=" + c["err"] if c["err"] else ""), c)
     nontriv = sum(1 for c in cases if len({a["i"] for a in c["hist"]}) >= 2
                   and sum(a["op"] == "diag" for a in c["hist"]) >= 1)
@@ -134,7 +153,8 @@ def run(tier, seed, replay=None):
         "distinct_nontrivial": nontriv,
         "rule": "every history of <=4 actions (new/register/diagnose over 2 instances, 2 probe functions, 2 option keys) "
                 "ending in a diagnose call, replayed on real Diagnostic objects with recording DiagnosticFunctions; "
-                "non-trivial = involves both instances; thorough adds histories with the real default function set",
+                "non-trivial = involves both instances; plus every two-step history with the REAL default function set on a plain "
+                "and on a troubled network (implausible impedances, non-converging load); thorough adds a seeded sample of longer ones",
         "with_real_default_functions": sum(1 for j in jobs if j["real"]),
         "samples": [cases[k] for k in range(0, len(cases), max(1, len(cases) // 3))][:3],
     }
